@@ -14,11 +14,9 @@ from vlib import common, gen, tables, langselect
 
 PID = "C10"
 
-# genuine defects found by this check, pending a decision (fix in /repo or known_findings.json) — see DEFECTS.md
-PENDING = {
-    "xml-root:o-ex:rights": "DRMREL 1.0 is not recognised by its root element: an XML document <o-ex:rights xmlns:o-ex=...> without DOCTYPE is rejected (WBXML_ERROR_UNKNOWN_XML_LANGUAGE); Expat delivers the expanded name 'http://odrl.net/1.1/ODRL-EX|rights'; the '|' sends wbxml_tables_search_table through the namespace scan, which leaves the shared index at the end of the table, and the expanded name never equals the table's 'o-ex:rights'",
-    "xml-nsroot:syncml:metinf|MetInf": "a stand-alone <MetInf xmlns=\"syncml:metinf\"> without DOCTYPE is rejected: no namespace table starts with syncml:metinf and the root-element scan does not run after the namespace scan (shared index)",
-}
+# F1/F2 of DEFECTS.md (namespaced MetInf root, DRMREL root) are fixed in /repo (8a5d5ba, D30): nothing is pending, the old
+# behaviour is an ordinary violation
+PENDING = {}
 
 
 def run(ctx):
@@ -36,17 +34,19 @@ def run(ctx):
     proof_broken = (not cres["ok"]) or bool(bad)
 
     harness = common.build_harness("c10_harness")
-    driver = tables.build_driver_s("C10")
+    driver = common.build_driver("C10")
     rng = common.Rng(ctx.seed, 10)
     wc = langselect.wbxml_cases(cur, rng)
     xc = langselect.xml_cases(cur, rng)
     cc = langselect.conv_cases(cur, rng)
+    rc_ = langselect.reuse_cases(cur, rng)
     if getattr(ctx, "replay", None):
         rp = json.load(open(ctx.replay))
         want = set(o.get("input") for o in [rp] + list(rp.get("cases", [])) if o.get("input"))
         wc = [c for c in wc if c["line"] in want] or ([dict(line=w, oracle=None, kind="replay", lang=0, route="replay", forced=0) for w in want if w.startswith("w ")])
         xc = [c for c in xc if c["line"] in want]
         cc = [c for c in cc if c["line"] in want]
+        rc_ = [c for c in rc_ if c["line"] in want]
 
     concrete, corr, soft = [], [], 0
     kinds = {}
@@ -74,6 +74,25 @@ def run(ctx):
         elif a0 == "err" and (a or "").split(" ")[-1:] != [{"EMPTY_WBXML": "44", "END_OF_BUFFER": "45", "UNVALID_MBUINT32": "70", "CHARSET_NOT_FOUND": "35",
                                                             "STRTBL_LENGTH": "54", "UNKNOWN_PUBLIC_ID": "64"}.get((m or "").split(" ")[-1], "")]:
             soft += 1
+    for cr in crashes:
+        concrete.append({"kind": "crash-or-sanitizer-report", **cr})
+
+    # ---- parser object reuse: one WBXMLParser, two documents in a row
+    lines = [c["line"] for c in rc_]
+    ca, crashes = common.run_lines(harness, lines)
+    ma, _ = common.run_lines(driver, lines)
+
+    def canon2(a):
+        return " ; ".join(" ".join(x.split(" ")[:2]) if x.startswith("ok") else "err" for x in (a or "").split(" ; "))
+    for c, a, m in zip(rc_, ca, ma):
+        kinds[c["kind"]] = kinds.get(c["kind"], 0) + 1
+        if canon2(a) != c["oracle"]:
+            concrete.append({"kind": c["kind"], "input": c["line"], "lang": c["lang"], "c": a, "oracle": c["oracle"],
+                             "reason": "the second document parsed by the same parser object is given another language than on a fresh parser"})
+        else:
+            nontrivial.add(c["line"])
+        if canon2(a) != canon2(m):
+            corr.append({"input": c["line"], "c": a, "model": m, "route": c["route"]})
     for cr in crashes:
         concrete.append({"kind": "crash-or-sanitizer-report", **cr})
 
@@ -135,7 +154,7 @@ def run(ctx):
 
     # python counterpart of C10_shared_identifiers (offending rows when the pinned sharing changes)
     shared_now = shared_identifiers_py(cur)
-    n = len(wc) + len(xc) + len(cc)
+    n = len(wc) + len(xc) + len(cc) + len(rc_)
     pick = [wc[rng.below(len(wc))] for _ in range(5)] + [xc[rng.below(len(xc))] for _ in range(4)] if wc and xc else []
     ctx.coverage.update({
         "evaluations": n,
@@ -144,7 +163,7 @@ def run(ctx):
                 "and judged by the python oracle; non-trivial = the C selected a language; exhaustive over 29 languages x routes x 31 forcings, the seed varies letter case, string-table offsets and the 'other' language",
         "input_distribution": kinds,
         "samples": [{"input": c["line"][:160], "route": c["route"], "forced": c["forced"], "oracle": c["oracle"]} for c in pick],
-        "traces_validated_against_impl": len(wc) + len(xc),
+        "traces_validated_against_impl": len(wc) + len(xc) + len(rc_),
         "correspondence_disagreements": len(corr),
         "soft_error_code_differences": soft,
         "xml_precedence_cases_inferred_from_encoder_refusal": inferred,
@@ -186,12 +205,13 @@ def shared_identifiers_py(tj):
 
     def by_root(root):
         idx = 0
+        local = None
         if "|" in root:
             for i, l in enumerate(langs):
                 if ns0(l) is not None and root.lower().startswith(ns0(l).lower()):
                     return l
-            idx = len(langs)
-        return tables.first(l for l in langs[idx:] if l["root"] == root)
+            local = root.rsplit("|", 1)[1]
+        return tables.first(l for l in langs if l["root"] == root or (local is not None and l["root"] is not None and l["root"].rsplit(":", 1)[-1] == local))
     for l in langs:
         if l["pub_num"] != 1:
             f = tables.first(x for x in langs if x["pub_num"] == l["pub_num"])
